@@ -5,6 +5,7 @@ import (
 	"encoding/json"
 	"fmt"
 	"io"
+	"math"
 	"slices"
 	"strconv"
 	"strings"
@@ -187,6 +188,16 @@ func (m *JSONMarshaler) marshalSingular(opts *protojson.MarshalOptions, value pr
 		}
 	case protoreflect.MessageKind, protoreflect.GroupKind:
 		return opts.Marshal(value.Message().Interface())
+	case protoreflect.FloatKind, protoreflect.DoubleKind:
+		// JSON has no representation for these, so the Proto3 JSON mapping uses strings
+		switch f := value.Float(); {
+		case math.IsNaN(f):
+			marshalVal = "NaN"
+		case math.IsInf(f, 1):
+			marshalVal = "Infinity"
+		case math.IsInf(f, -1):
+			marshalVal = "-Infinity"
+		}
 	default:
 	}
 
@@ -422,12 +433,20 @@ func jsonFloatDecode[T constraints.Float](fd protoreflect.FieldDescriptor, dec *
 		return protoreflect.Value{}, err
 	}
 
+	bits := 64
+	if fd.Kind() == protoreflect.FloatKind {
+		bits = 32
+	}
+
 	switch tok := tok.(type) {
 	case float64:
-		return convert(T(tok)), nil
+		// a finite number which doesn't fit into a float is an error, not an infinity
+		if bits == 64 || !math.IsInf(float64(float32(tok)), 0) {
+			return convert(T(tok)), nil
+		}
 	case string:
-		// this supports NaN, -Infinity, +Infinity
-		f, err := strconv.ParseFloat(tok, 64)
+		// this supports NaN, -Infinity, +Infinity; numbers which don't fit into the field's type are range errors
+		f, err := strconv.ParseFloat(tok, bits)
 		if err == nil {
 			return convert(T(f)), nil
 		}
